@@ -70,8 +70,14 @@ def harness_hash():
     return file_hash(tree_files(HARNESS))
 
 
+_spec_hash = None
+
+
 def spec_hash():
-    return file_hash(tree_files(SPEC, {".tla", ".cfg"}))
+    global _spec_hash
+    if _spec_hash is None:
+        _spec_hash = file_hash(tree_files(SPEC, {".tla", ".cfg"}))
+    return _spec_hash
 
 
 def ensure(d):
